@@ -392,27 +392,41 @@ class ValueTransformation(DetectionItemTransformation):
 
     def apply_detection_item(self, detection_item: SigmaDetectionItem) -> SigmaDetectionItem | None:
         """Call apply_value for each value and integrate results into value list."""
-        results = []
-        modified = False
-        for value in detection_item.value:
-            if self.value_types is None or isinstance(
-                value, self.value_types
-            ):  # run replacement if no type annotation is defined or matching to type of value
-                res = self.apply_value(detection_item.field, value)
-                if res is None:  # no value returned: drop value
-                    results.append(value)
-                elif isinstance(res, Iterable) and not isinstance(res, SigmaType):
-                    results.extend(res)
-                    modified = True
-                else:
-                    results.append(res)
-                    modified = True
-            else:  # pass original value if type doesn't matches to apply_value argument type annotation
-                results.append(value)
+        results, modified = self._apply_values(detection_item.field, detection_item.value)
         if modified:
             detection_item.value = results
             return detection_item
         return None  # no replacement was made
+
+    def _apply_values(
+        self, field: str | None, values: list[SigmaType]
+    ) -> tuple[list[SigmaType], bool]:
+        """Call apply_value for each value of the list. Returns the resulting list and if it differs."""
+        results: list[SigmaType] = []
+        modified = False
+        for value in values:
+            if self.value_types is None or isinstance(
+                value, self.value_types
+            ):  # run replacement if no type annotation is defined or matching to type of value
+                res = self.apply_value(field, value)
+            else:  # pass original value if type doesn't matches to apply_value argument type annotation
+                res = None
+            if res is None and isinstance(value, SigmaExpansion):
+                # The transformation left the expansion as a whole alone. Its alternatives are what
+                # a modifier (windash, base64offset) made of one value of the rule; they are values
+                # like any other and the transformation is applied to each of them.
+                alternatives, changed = self._apply_values(field, value.values)
+                if changed:
+                    res = SigmaExpansion(alternatives)
+            if res is None:  # no value returned: pass original value
+                results.append(value)
+            elif isinstance(res, Iterable) and not isinstance(res, SigmaType):
+                results.extend(res)
+                modified = True
+            else:
+                results.append(res)
+                modified = True
+        return results, modified
 
     def apply_detection(self, detection: SigmaDetection) -> None:
         for i, detection_item in enumerate(detection.detection_items):
